@@ -661,13 +661,18 @@ impl DrawExecutor {
         let width = to.x - from.x;
         let height = to.y - from.y;
         let res = self.get_resolution();
+        // only the part of the piece that lies in the grabbed picture and on the screen is walked
+        let x_start = 0.max(-from.x).max(-dest.x);
+        let y_start = 0.max(-from.y).max(-dest.y);
+        let width = width.min(self.screen_memory_size.width - from.x);
+        let height = height.min(self.screen_memory_size.height - from.y);
 
-        for y in 0..height {
+        for y in y_start..height {
             let yp = y + from.y;
             if dest.y + y >= res.height {
                 break;
             }
-            for x in 0..width {
+            for x in x_start..width {
                 let xp = x + from.x;
 
                 if dest.x + x >= res.width {
